@@ -414,7 +414,9 @@ Alts(nt) ==
             A(1, <<Same(nt, "itemns")>>) >>
     [] nt.n = "item"  ->
          << A(0, <<M("item["), M("pats["), Same(nt, "pats"), M("]pats"), TL(")"), Same(nt, "cbody"), TL(";;"), M("op:;;"), M("]item")>>),
-            A(1, <<M("item["), T("("), M("op:("), M("pats["), Same(nt, "pats"), M("]pats"), TL(")"), Same(nt, "cbody"), TL(";;"), M("op:;;"), M("]item")>>) >>
+            A(1, <<M("item["), T("("), M("op:("), M("pats["), Same(nt, "pats"), M("]pats"), TL(")"), Same(nt, "cbody"), TL(";;"), M("op:;;"), M("]item")>>),
+            \* after "(" the first pattern may spell esac
+            A(1, <<M("item["), T("("), M("op:("), M("pats["), T("esac")>> \o WLit("esac") \o <<M("]pats"), TL(")"), Same(nt, "cbody"), TL(";;"), M("op:;;"), M("]item")>>) >>
     [] nt.n = "itemns" ->  \* last item without ;;
          << A(0, <<M("item["), M("pats["), Same(nt, "pats"), M("]pats"), TL(")"), Same(nt, "tlist"), M("]item")>>),
             A(1, <<M("item["), M("pats["), Same(nt, "pats"), M("]pats"), TL(")"), M("]item")>>) >>
